@@ -11,7 +11,7 @@ Variable D : bytes -> bytes.
 
 Notation HK := (Hk D).
 Notation vkey := (valid_key std_key_len std_key_ranges).
-Notation step := (tstep D fs_commit_skel std_key_len std_key_ranges).
+Notation step := (tstep D true fs_commit_skel std_key_len std_key_ranges).
 
 (** Control points of one Create call: the suffixes of the skeleton, with
     commit's body spliced in at the call. *)
@@ -358,7 +358,7 @@ Proof.
 Qed.
 
 Lemma inv_step objs0 inputs s e :
-  inv objs0 inputs s -> inv objs0 inputs (sys_step D fs_commit_skel std_key_len std_key_ranges s e).
+  inv objs0 inputs s -> inv objs0 inputs (sys_step D true fs_commit_skel std_key_len std_key_ranges s e).
 Proof.
   intros I. destruct e as [tid fault]. unfold sys_step. cbn [fst snd].
   destruct (nth_error (sthr s) tid) as [t|] eqn:Et; [|exact I].
@@ -408,13 +408,13 @@ Qed.
 Theorem inv_run objs0 inputs sched :
   wf_objs objs0 ->
   inv objs0 inputs
-      (run D fs_commit_skel std_key_len std_key_ranges
+      (run D true fs_commit_skel std_key_len std_key_ranges
            (init_sys fs_create_skel objs0 inputs) sched).
 Proof.
   intros Hwf. unfold run.
   assert (G : forall s, inv objs0 inputs s ->
                         inv objs0 inputs
-                            (fold_left (sys_step D fs_commit_skel std_key_len std_key_ranges) sched s)).
+                            (fold_left (sys_step D true fs_commit_skel std_key_len std_key_ranges) sched s)).
   { induction sched as [|e r IH]; intros s I; [exact I|]. cbn. apply IH. now apply inv_step. }
   apply G. now apply inv_init.
 Qed.
@@ -422,7 +422,7 @@ Qed.
 (** ** Consequences *)
 
 Notation runs objs0 inputs sched :=
-  (run D fs_commit_skel std_key_len std_key_ranges (init_sys fs_create_skel objs0 inputs) sched).
+  (run D true fs_commit_skel std_key_len std_key_ranges (init_sys fs_create_skel objs0 inputs) sched).
 
 (** Every object file holds bytes that hash to its name. *)
 Theorem fs_objects_well_keyed : forall objs0 inputs sched k c,
